@@ -1191,20 +1191,10 @@ _FIXES_CACHE = {}
 
 
 def probe_unmodelled():
-    """Mechanisms of the code under test that the Lean model of the unused-import mode does not have (yet):
-    -> list of names; the unused-import correspondence is skipped (and says so) while the list is non-empty."""
-    out = []
-    fx = probe_fixes()
-    try:
-        from pyflyby._autoimp import scan_for_import_issues
-        from pyflyby._parse import PythonBlock
-        src = "import zqa as zq\nif 1:\n    import zqb as zq\n"
-        _, unused = scan_for_import_issues(PythonBlock(src), find_unused_imports=True, parse_docstrings=False)
-        if fx.get("condStore") and len(unused) == 2:
-            out.append("shadowed _UseChecker chains (conditionally replaced imports are reported when nothing reads the name)")
-    except Exception:
-        pass
-    return out
+    """Mechanisms of the code under test that the Lean model of the unused-import mode does not have: none at present
+    (the shadowed `_UseChecker` chains of c9ece75/66151d3 are modelled).  Kept as the hook for the next such change:
+    while the list is non-empty the harness skips the `unused` correspondence and says so."""
+    return []
 
 
 def probe_fixes():
